@@ -18,8 +18,9 @@ LEVEL_TEXT = ('Every history of builds (all batch sizes), matchings on one or tw
 LEVEL_NOTE = 'Trusted: numpy (pinv), numba, references. Bound: <=9 building traces, <=4+3 matched traces, trace length <=3, depth <=5.'
 DESIGN_REF = 'DESIGN.md section 3, C14'
 
-PROFILES = {'2-2': (2, 2), '2-3': (2, 3), '3-2-4': (3, 2, 4), '2-2-2': (2, 2, 2)}
-DECLS = {'contiguous': lambda k: list(range(k)), 'gapped': lambda k: [1, 4, 300][:k], 'permuted': lambda k: [5, 0, 2][:k][::-1]}
+PROFILES = {'2-2': (2, 2), '2-3': (2, 3), '3-2-4': (3, 2, 4), '2-2-2': (2, 2, 2), '2-3-2-2': (2, 3, 2, 2)}
+DECLS = {'contiguous': lambda k: list(range(k)), 'gapped': lambda k: [1, 4, 300, 7][:k], 'permuted': lambda k: [5, 0, 2, 9][:k][::-1],
+         'anchored': lambda k: [0] + list(range(1, k - 1))[::-1] + [k - 1]}          # first and last class in place, the middle reversed ([0, 2, 1, 3])
 
 
 def bound(tier):
@@ -248,9 +249,12 @@ def run_shard(shard, ctx):
         return col.result()
     for kind in ('static', 'dpa'):
         for decl in DECLS:
+            if decl == 'anchored' and len(PROFILES[shard['prof']]) < 4: continue          # identical to 'contiguous' below four classes
+            if shard['prof'] == '2-3-2-2' and tier == 'quick' and decl != 'anchored': continue
             for und in (False, True):
                 for unused in (False, True):
                     if und and decl == 'permuted' and tier == 'quick': continue
+                    if decl == 'anchored' and (und or unused): continue
                     if unused and tier == 'quick' and (decl != 'gapped' or und): continue
                     s = TplSystem(kind, shard['prof'], shard['L'], shard['prec'], decl, und, seed, tier, unused=unused)
                     e = Explorer(s, max_depth=5, max_dev=2).run()
